@@ -91,14 +91,18 @@ func snapshotHasNoFormatter(c *Ctx, rule string) {
 func signerSelfCheck(c *Ctx, rule string) {
 	p := c.P
 	ctor := p.MustFunc("crypto/sign", "NewEd25519SignerFromFile")
+	// the test verification may sit in a helper of the signer (selfCheck): found in the constructor's region
 	var verify *ssa.Call
-	eachInstr(ctor, func(in ssa.Instruction) {
-		if call, ok := in.(*ssa.Call); ok {
-			if f := call.Call.StaticCallee(); f != nil && f.Name() == "Verify" && f.Signature.Recv() != nil {
-				verify = call
-			}
+	var anchor ssa.Instruction
+	rg := p.RegionOf(ctor, 2)
+	for _, ri := range rg.Calls(func(k *ssa.CallCommon) bool {
+		f := k.StaticCallee()
+		return f != nil && f.Name() == "Verify" && f.Signature.Recv() != nil
+	}) {
+		if call, ok := ri.in.(*ssa.Call); ok {
+			verify, anchor = call, rg.Anchor(ri)
 		}
-	})
+	}
 	name := funcName(ctor) + ":self-check"
 	if verify == nil {
 		c.Fail(rule, name, ctor.Pos(), "the constructor does not verify a test signature with the loaded keys")
@@ -117,7 +121,7 @@ func signerSelfCheck(c *Ctx, rule string) {
 		if k, isC := RetVal(ret, len(ret.Results)-1).(*ssa.Const); !isC || k.Value != nil {
 			continue // error return
 		}
-		if !instrReaches(verify, ret) {
+		if !instrReaches(anchor, ret) {
 			continue
 		}
 		nOK++
